@@ -455,6 +455,16 @@ func zzC16_pop(which int, tagLen int) {
 		verifAssert(bAnd(!ok, err == nil), "never under an identity key obtained by removing all keys")
 		ok, err = BLSVerifyPOP(idk, g1Serialization)
 		verifAssert(bAnd(!ok, err == nil), "the identity PoP is rejected under an identity key obtained by removing all keys")
+	case 8:
+		// a key decoded from a buffer that the caller reuses afterwards (e.g. reading several keys through one buffer)
+		buf := pk.Encode()
+		dec, err := DecodePublicKey(BLSBLS12381, buf)
+		verifAssert(err == nil, "the encoded key decodes")
+		other := newPrKeyBLSBLS12381(&y).PublicKey().Encode()
+		copy(buf, other)
+		ok, err := BLSVerifyPOP(dec, pop)
+		verifAssert(bAnd(ok, err == nil), "the PoP verifies under the decoded key after the caller reused the decoding buffer")
+		assertEqBytes(dec.Encode(), pk.Encode(), "the decoded key keeps its encoding")
 	case 7:
 		// y = -x: the aggregate is the identity key; removing pk(y) from the identity key gives pk(x)
 		sum, _ := AggregateBLSPrivateKeys([]PrivateKey{sk, newPrKeyBLSBLS12381(&y)})
@@ -827,9 +837,9 @@ func zzC02_errors() {
 
 // ---------------------------------------------------------------------------------------------
 // C03: batch verification = individual verification, index by index.
-// kinds per position (base 10 digits of `kinds`): 0 valid | 1 valid + d_i*g1 (independent error) | 2 malformed |
+// kinds per position (base 16 digits of `kinds`): 0 valid | 1 valid + d_i*g1 (independent error) | 2 malformed |
 // 3 short | 4 valid + torsion point | 5 identity public key | 6 valid + D*g1 | 7 valid - D*g1 (6 and 7 share D) |
-// 8 valid followed by one more byte | 9 the valid signature twice (96 bytes)
+// 8 valid followed by one more byte | 9 the valid signature twice (96 bytes) | 10 (a) the identity signature
 func zzC03_batch(n, kinds int) {
 	msg := nondetBytes(2)
 	h := testHasher("batch-tag")
@@ -846,7 +856,7 @@ func zzC03_batch(n, kinds int) {
 		sk := newPrKeyBLSBLS12381(&x)
 		pks[i] = sk.PublicKey()
 		sig, _ := sk.Sign(msg, h)
-		k := digit(kinds, i, 10)
+		k := digit(kinds, i, 16)
 		switch k {
 		case 0:
 			sigs[i] = sig
@@ -881,6 +891,8 @@ func zzC03_batch(n, kinds int) {
 			sigs[i] = append(append([]byte{}, sig...), nondetByte()) // a valid signature followed by one more byte
 		case 9:
 			sigs[i] = append(append([]byte{}, sig...), sig...) // 96 bytes: the valid signature twice
+		case 10:
+			sigs[i] = append([]byte{}, g1Serialization...) // the identity signature under a regular key
 		}
 	}
 	res, err := BatchVerifyBLSSignaturesOneMessage(pks, sigs, msg, h)
@@ -889,7 +901,7 @@ func zzC03_batch(n, kinds int) {
 	for i := 0; i < n; i++ {
 		ind, _ := pks[i].Verify(sigs[i], msg, h)
 		verifAssert(res[i] == ind, "batch verdict = individual verdict at every index")
-		verifAssert(ind == (digit(kinds, i, 10) == 0), "individual verdicts are as constructed")
+		verifAssert(ind == (digit(kinds, i, 16) == 0), "individual verdicts are as constructed")
 	}
 	verifReach("batch")
 }
